@@ -223,11 +223,18 @@ where
         } else {
             // Start a multi-block read
             self.card_command(CMD18, start_idx)?;
+            let mut result = Ok(());
             for block in blocks.iter_mut() {
-                self.read_data(&mut block.contents)?;
+                result = self.read_data(&mut block.contents);
+                if result.is_err() {
+                    break;
+                }
             }
-            // Stop the read
-            self.card_command(CMD12, 0)?;
+            // Stop the read, even if it failed: the card keeps sending blocks
+            // until it is told to stop
+            let stop_result = self.card_command(CMD12, 0);
+            result?;
+            stop_result?;
         }
         Ok(())
     }
@@ -262,7 +269,12 @@ where
             self.card_command(CMD25, start_idx)?;
             for block in blocks.iter() {
                 self.wait_not_busy(Delay::new_write())?;
-                self.write_data(WRITE_MULTIPLE_TOKEN, &block.contents)?;
+                if let Err(e) = self.write_data(WRITE_MULTIPLE_TOKEN, &block.contents) {
+                    // The card did not take the block: the transfer has to be
+                    // stopped with CMD12
+                    let _ = self.card_command(CMD12, 0);
+                    return Err(e);
+                }
             }
             // Stop the write
             self.wait_not_busy(Delay::new_write())?;
